@@ -9,10 +9,10 @@ theorem abs_suffix_length (a : Abs) : a.suffix.length = a.src.length - a.cur := 
 theorem R.of_keepA {P : Nat} {a a' : AState} {s s' : Sess} (r : R P a s)
     (wf : WF s'.b) (pg : PG s'.b) (k : KeepA s.b s'.b) (aok : AnchOK s'.b)
     (hsrc : a'.src = a.src) (hanch : a'.anchor = a.anchor) (hnanch : a'.nanchor = a.nanchor)
-    (hcur : s'.b.base + s'.b.pos = a'.cur) (hge : a.cur ≤ a'.cur) (hle : a'.cur ≤ a'.src.length)
+    (hcur : s'.b.base + s'.b.pos = a'.cur) (hge : a.cur ≤ a'.cur)
     (hlp : s'.lastp.map (s'.b.base + ·) = a'.lastp)
     (hlple : ∀ p, a'.lastp = some p → a.cur ≤ p ∧ p ≤ a'.cur) : R P a' s' := by
-  refine ⟨wf, pg, aok, r.nfa.keepA k, by rw [k.src, r.src, hsrc], hcur, hle, by rw [k.ps]; exact r.ps, ?_, ?_, ?_, ?_, hlp, ?_⟩
+  refine ⟨wf, pg, aok, r.nfa.keepA k, by rw [k.src, r.src, hsrc], hcur, by rw [k.ps]; exact r.ps, ?_, ?_, ?_, ?_, hlp, ?_⟩
   · rw [k.hasfp, k.mode]; exact r.modefp
   · intro hf
     rw [k.hasfp] at hf
@@ -47,7 +47,7 @@ theorem sim_getOffset (P : Nat) : SimStep P .getOffset := by
   · show (⟨St.ok, [], s.b.base + s.b.pos⟩ : Obs) = ⟨.ok, [], a.cur⟩
     rw [r.cur]
   · exact r.of_keepA (s' := (s.step .getOffset).2) (a' := { a with lastp := none }) r.wf r.pg (KeepA.refl _) r.aok rfl rfl rfl r.cur
-      (Nat.le_refl _) r.inb rfl (fun p hp => by cases hp)
+      (Nat.le_refl _) rfl (fun p hp => by cases hp)
 
 /-- end of the loaded bytes with the page guarantee in force = end of the input -/
 theorem R.at_end_iff {P : Nat} {a : AState} {s : Sess} (r : R P a s) : s.b.pos < s.b.n ↔ a.cur < a.src.length := by
@@ -56,7 +56,6 @@ theorem R.at_end_iff {P : Nat} {a : AState} {s : Sess} (r : R P a s) : s.b.pos <
   have hl : a.abs.suffix.length = a.src.length - a.cur := abs_suffix_length a.abs
   have hp := r.wf.hpos
   have hps := r.wf.hps
-  have hin := r.inb
   constructor
   · intro h; omega
   · intro h
@@ -81,7 +80,7 @@ theorem sim_get (P : Nat) : SimStep P .get := by
     · have hb : (s.step .get).2.b = s.b := by rw [step_b]; show (get s.b).2 = _; rw [e]
       have hp : (s.step .get).2.lastp = some s.b.pos := by rw [step_lastp]; show (get s.b).1.p = _; rw [e]
       refine r.of_keepA (s' := (s.step .get).2) (by rw [hb]; exact r.wf) (by rw [hb]; exact r.pg) (by rw [hb]; exact KeepA.refl _)
-        (by rw [hb]; exact r.aok) rfl rfl rfl (by rw [hb]; exact r.cur) (Nat.le_refl _) r.inb ?_ ?_
+        (by rw [hb]; exact r.aok) rfl rfl rfl (by rw [hb]; exact r.cur) (Nat.le_refl _) ?_ ?_
       · rw [hp, hb]; show some (s.b.base + s.b.pos) = some a.cur; rw [r.cur]
       · intro p hp'
         show a.cur ≤ p ∧ p ≤ a.cur
@@ -99,7 +98,7 @@ theorem sim_get (P : Nat) : SimStep P .get := by
     · have hb : (s.step .get).2.b = s.b := by rw [step_b]; show (get s.b).2 = _; rw [e]
       have hp : (s.step .get).2.lastp = none := by rw [step_lastp]; show (get s.b).1.p = _; rw [e]
       refine r.of_keepA (s' := (s.step .get).2) (by rw [hb]; exact r.wf) (by rw [hb]; exact r.pg) (by rw [hb]; exact KeepA.refl _)
-        (by rw [hb]; exact r.aok) rfl rfl rfl (by rw [hb]; exact r.cur) (Nat.le_refl _) r.inb (by rw [hp]; rfl)
+        (by rw [hb]; exact r.aok) rfl rfl rfl (by rw [hb]; exact r.cur) (Nat.le_refl _) (by rw [hp]; rfl)
         (fun p hp' => by cases hp')
 
 end EaselModel.Buffer
